@@ -357,6 +357,15 @@ func TestC16(t *testing.T) {
 	// sampled: written order of the modifiers and other patterns
 	gen := func(t *rapid.T) c16Case {
 		mods := c16Subset(rapid.IntRange(0, 1<<len(c16Mods)-1).Draw(t, "mask"))
+		if chance(t, "value-modifier-in-between", 3) {
+			// a modifier with a value (quotes, escapes, separators inside it) written among the others:
+			// it restricts where the rule applies, not what the rule switches off
+			extra := pick(t, "value-modifier", []string{"client='Frank\\'s laptop'", "client=\"a\\\"b\"", "client='x\\,y'", "ctag=device_pc", "dnstype=A", "domain=example.org|~sub.example.org", "client='it\\'s \\'q\\''"})
+			ms := shuffled(t, "order", mods)
+			pos := rapid.IntRange(0, len(ms)).Draw(t, "value-modifier-pos")
+			ms = append(ms[:pos:pos], append([]string{extra}, ms[pos:]...)...)
+			return c16Case{Kind: "exception", Mods: ms, Pattern: pick(t, "pattern", []string{"||example.org^", "example.org"})}
+		}
 		return c16Case{
 			Kind:    pick(t, "kind", []string{"exception", "engine"}),
 			Mods:    shuffled(t, "order", mods),
